@@ -26,6 +26,8 @@ type Options struct {
 	Step     bool
 	Yield    bool
 	OSShim   bool // os.X -> simos.X
+	Globals  bool // emit an accessor listing the addresses of all package-level variables
+	Sync     bool // route sync.Mutex/RWMutex/Once and sync/atomic through cooperative wrappers
 }
 
 type Stats struct {
@@ -35,6 +37,7 @@ type Stats struct {
 	Steps     int
 	Yields    int
 	OSCalls   int
+	SyncCalls int
 	OSLeft    []string // os selectors left untouched (not implemented by simos)
 }
 
@@ -45,6 +48,7 @@ func (s *Stats) Add(o Stats) {
 	s.Steps += o.Steps
 	s.Yields += o.Yields
 	s.OSCalls += o.OSCalls
+	s.SyncCalls += o.SyncCalls
 	s.OSLeft = append(s.OSLeft, o.OSLeft...)
 }
 
@@ -206,7 +210,42 @@ func Dir(dir, importPath string, opts Options, im *Importer, lenient bool) (Stat
 	}
 	st.MapRanges, st.Allocs, st.Steps, st.Yields, st.OSCalls = rw.nMap, rw.nAlloc, rw.nStep, rw.nYield, rw.nOS
 	st.OSLeft = rw.osLeft
+	st.SyncCalls = rw.nSync
+	if opts.Globals {
+		if err := writeGlobals(dir, files, info); err != nil {
+			return st, err
+		}
+	}
 	return st, nil
+}
+
+// writeGlobals emits zz_verif_globals.go: VerifGlobals() returns the address of every
+// package-level variable, so the simulator can fingerprint package state.
+func writeGlobals(dir string, files []*ast.File, info *types.Info) error {
+	var names []string
+	for _, f := range files {
+		for _, d := range f.Decls {
+			gd, ok := d.(*ast.GenDecl)
+			if !ok || gd.Tok != token.VAR {
+				continue
+			}
+			for _, sp := range gd.Specs {
+				for _, id := range sp.(*ast.ValueSpec).Names {
+					if id.Name != "_" {
+						names = append(names, id.Name)
+					}
+				}
+			}
+		}
+	}
+	sort.Strings(names)
+	var b strings.Builder
+	fmt.Fprintf(&b, "package %s\n\n// VerifGlobals is added by the verification instrumenter.\nfunc VerifGlobals() map[string]interface{} {\n\treturn map[string]interface{}{\n", files[0].Name.Name)
+	for _, n := range names {
+		fmt.Fprintf(&b, "\t\t%q: &%s,\n", n, n)
+	}
+	b.WriteString("\t}\n}\n")
+	return os.WriteFile(filepath.Join(dir, "zz_verif_globals.go"), []byte(b.String()), 0o644)
 }
 
 type rewriter struct {
@@ -221,6 +260,7 @@ type rewriter struct {
 	nMap, nAlloc int
 	nStep        int
 	nYield, nOS  int
+	nSync        int
 	osLeft       []string
 	veCounter    int
 }
@@ -378,7 +418,68 @@ func (rw *rewriter) expr(e *ast.Expr) {
 	})
 }
 
+// syncCall rewrites x.Lock() etc. on sync types and atomic.F(&v, ...) into cooperative
+// simrt calls: simrt.Lock(&x) ... so that a descheduled lock holder cannot deadlock the
+// baton scheduler and the race rules see the synchronisation.
+func (rw *rewriter) syncCall(c *ast.CallExpr) {
+	se, ok := c.Fun.(*ast.SelectorExpr)
+	if !ok {
+		return
+	}
+	// sync/atomic package functions
+	if x, ok := se.X.(*ast.Ident); ok {
+		if pn, ok := rw.info.Uses[x].(*types.PkgName); ok && pn.Imported().Path() == "sync/atomic" && len(c.Args) > 0 {
+			rw.nSync++
+			rw.touchedSimrt = true
+			// evaluate the original call, but tell the simulator which address is atomic
+			c.Args[0] = &ast.CallExpr{Fun: sel(SimrtName, "AtomicAddr"), Args: []ast.Expr{c.Args[0]}}
+			return
+		}
+	}
+	t := rw.info.TypeOf(se.X)
+	if t == nil {
+		return
+	}
+	if p, ok := t.(*types.Pointer); ok {
+		t = p.Elem()
+	}
+	named, ok := t.(*types.Named)
+	if !ok || named.Obj().Pkg() == nil || named.Obj().Pkg().Path() != "sync" {
+		return
+	}
+	var fn string
+	switch named.Obj().Name() + "." + se.Sel.Name {
+	case "Mutex.Lock":
+		fn = "MutexLock"
+	case "Mutex.Unlock":
+		fn = "MutexUnlock"
+	case "RWMutex.Lock":
+		fn = "RWLock"
+	case "RWMutex.Unlock":
+		fn = "RWUnlock"
+	case "RWMutex.RLock":
+		fn = "RWRLock"
+	case "RWMutex.RUnlock":
+		fn = "RWRUnlock"
+	case "Once.Do":
+		fn = "OnceDo"
+	default:
+		return
+	}
+	recv := se.X
+	if _, isPtr := rw.info.TypeOf(se.X).(*types.Pointer); !isPtr {
+		recv = &ast.UnaryExpr{Op: token.AND, X: se.X}
+	}
+	c.Fun = sel(SimrtName, fn)
+	c.Args = append([]ast.Expr{recv}, c.Args...)
+	rw.nSync++
+	rw.touchedSimrt = true
+}
+
 func (rw *rewriter) call(c *ast.CallExpr) {
+	if rw.opts.Sync {
+		rw.syncCall(c)
+	}
 	if !rw.opts.Alloc {
 		return
 	}
